@@ -220,7 +220,7 @@ impl ErrorBounds for mode::Away {
     fn error_bounds<const B: Word>(
         f: &FBig<Self, B>,
     ) -> (FBig<Self, B>, FBig<Self, B>, bool, bool) {
-        if f.precision() == 0 && f.repr().is_zero() {
+        if f.precision() == 0 || f.repr().is_zero() {
             (FBig::ZERO, FBig::ZERO, true, true)
         } else {
             match f.repr().sign() {
@@ -254,7 +254,11 @@ impl ErrorBounds for mode::Down {
     fn error_bounds<const B: Word>(
         f: &FBig<Self, B>,
     ) -> (FBig<Self, B>, FBig<Self, B>, bool, bool) {
-        (FBig::ZERO, f.ulp(), true, false)
+        if f.precision() == 0 {
+            (FBig::ZERO, FBig::ZERO, true, true)
+        } else {
+            (FBig::ZERO, f.ulp(), true, false)
+        }
     }
 }
 
@@ -281,7 +285,11 @@ impl ErrorBounds for mode::Up {
     fn error_bounds<const B: Word>(
         f: &FBig<Self, B>,
     ) -> (FBig<Self, B>, FBig<Self, B>, bool, bool) {
-        (f.ulp(), FBig::ZERO, false, true)
+        if f.precision() == 0 {
+            (FBig::ZERO, FBig::ZERO, true, true)
+        } else {
+            (f.ulp(), FBig::ZERO, false, true)
+        }
     }
 }
 
